@@ -167,6 +167,14 @@ func installHarnessAPI(c *Ctx, hpkgs []string) {
 		in[p+".verifIte"] = func(c *Ctx, a []Value) Value {
 			return Ite(a[0].(*Term), a[1].(*Term), a[2].(*Term))
 		}
+		in[p+".verifFail"] = func(c *Ctx, a []Value) Value {
+			// a point that must be unreachable; not subject to the vacuity guard
+			c.stats.asserts++
+			if !c.replaying() {
+				c.reportViolation("assert", cstr(a[0]), Bool(true))
+			}
+			panic(abortPath{"assert always fails"})
+		}
 		in[p+".verifReach"] = func(c *Ctx, a []Value) Value { c.reach[cstr(a[0])]++; return nil }
 		in[p+".verifKnownClass"] = func(c *Ctx, a []Value) Value {
 			c.kf = append(c.kf, kfClass{id: cstr(a[0]), cond: a[1].(*Term)})
